@@ -9,6 +9,7 @@ import (
 	_ "verifmc/props/c06"
 	_ "verifmc/props/c07"
 	_ "verifmc/props/c08"
+	_ "verifmc/props/c09"
 	_ "verifmc/props/c10"
 	_ "verifmc/props/c11"
 	_ "verifmc/props/c12"
